@@ -10,9 +10,14 @@ import os, re, subprocess, json, time
 from concurrent.futures import ThreadPoolExecutor
 from vlib import build as B
 
+import importlib.util
+
 HERE = os.path.dirname(os.path.abspath(__file__))
 PROGS = os.path.join(HERE, "..", "harness", "c11_progs.scm")
 EMBED = os.path.join(HERE, "..", "harness", "embed_c11.c")
+_spec = importlib.util.spec_from_file_location("c11_rand", os.path.join(HERE, "..", "harness", "c11_rand.py"))
+R = importlib.util.module_from_spec(_spec)
+_spec.loader.exec_module(R)
 
 PTR = re.compile(r"0x[0-9a-f]+")
 
@@ -65,6 +70,8 @@ def parse_trace(text, maxlines=20000):
         h = head.split(" ")
         sm = re.match(r"C (\S+) F(.*) B (\S+) P(.*) T(.*?)(?: M (\S+))?$", state)
         if not sm:
+            if ln is lines[-1] or not any(x for x in lines[lines.index(ln) + 1:]):
+                break                 # the process was killed while writing its last line
             raise TraceError("bad state: " + state[:200])
         if first:
             # the root thread is the current one at the first event unless that is a scheduler line
@@ -207,6 +214,215 @@ def check_state_invariant(exp):
         if t in P and fl[0] != "1":
             return "paused thread %d is not marked waiting" % t
     return None
+
+
+# --------------------------------------------------------------------------- random programs (round 2)
+def squeeze_trace(text):
+    """drops the interior of every run of scheduler lines that leave exactly the same state and differ only in the
+    clock readings (a lone runnable thread re-scheduled at every slice end, or an ended thread spinning until the next
+    timeout): the first and the last line of a run are kept, so the model is still asked at the earliest and at the
+    latest clock reading at which the real scheduler changed nothing"""
+    out = []
+    keys = []
+    for ln in text.split("\n"):
+        if ln.startswith("q "):
+            continue
+        key = None
+        if ln.startswith("sched ") and " | " in ln:
+            h, st = ln.split(" | ", 1)
+            hh = h.split(" ")
+            key = (hh[1], hh[-1], st)
+        if key is not None and len(keys) >= 2 and keys[-1] == key and keys[-2] == key:
+            out[-1] = ln          # extend the run: replace its last line
+            continue
+        out.append(ln)
+        keys.append(key)
+    return "\n".join(out)
+
+
+def model_answers(ctx, exe, traces, fixed=True):
+    """traces: list of parse_trace items lists.  One model process for all.  Returns per trace a list of answers
+    aligned with its items (the inserted exit operations removed); an answer list is cut at the first line the
+    model does not answer."""
+    reqs, plan = [], []
+    for ti, (items, dims) in enumerate(traces):
+        reqs += ["reset %d" % (1 if fixed else 0), "dims %d %d" % (max(1, dims["threads"]), max(1, dims["mutexes"]))]
+        plan += [None, None]
+        dead = set()
+        for k, (req, exp) in enumerate(items):
+            if req.startswith("sched"):
+                old = exp["old"]
+                fl = exp["T"].get(old)
+                if fl and fl[0][2] == "0" and old not in dead:
+                    reqs.append("exit")
+                    plan.append(None)
+                    dead.add(old)
+            if req.startswith("term"):
+                dead.add(int(req.split()[1]))
+            reqs.append(req)
+            plan.append((ti, k))
+    outs = ctx.run_model(exe, reqs)
+    res = [[None] * len(items) for items, _ in traces]
+    for pl, o in zip(plan, outs):
+        if pl is not None:
+            res[pl[0]][pl[1]] = o
+    return res
+
+
+def seed_schedules(rng, n):
+    out = []
+    for _ in range(n):
+        x = rng.random()
+        if x < 0.15:
+            out.append("-")
+        elif x < 0.8:
+            out.append("seed:%d:%d" % (rng.randrange(1, 10 ** 6), rng.choice([2, 5, 8, 13, 30, 30, 60, 60, 120, 200, 400])))
+        else:
+            k = rng.choice([1, 3, 9, 17, 33, 65])
+            out.append("list:" + ",".join([str(k)] * rng.choice([30, 100])))
+    return out
+
+
+def run_random(ctx, d, emb, exe, tdir, replay_base, nprog, nsched):
+    """random thread programs x slice schedules on the virtual clock, every run traced: (1) the property's clauses
+    evaluated on the real scheduler's states (R.trace_oracle) and on the program's logged outcomes (R.spec_outcome),
+    (2) every traced state compared with the extracted model, (3) the logged outcomes compared with the outcomes
+    predicted from the model's answers through the wrapper semantics of interface.scm."""
+    rng = ctx.rng
+    progs = [R.gen_program(rng) for _ in range(nprog)]
+    reqs, meta = [], []
+    for pi, p in enumerate(progs):
+        for si, sc in enumerate(seed_schedules(rng, nsched)):
+            tr = os.path.join(tdir, "r%d_%d.txt" % (pi, si))
+            reqs.append((sc, "1000", tr, p["expr"]))
+            meta.append((p, sc, tr))
+    outs = parallel_batches(d, emb, reqs, jobs=4, limit=4)
+    feats = {}
+    found = {}           # class -> detail of the first witness
+    diverge = None
+    outcome_diff = None
+    n_lines = n_traces = n_outside = n_pred = n_gap = 0
+    parsed = []
+    for (p, sc, tr), o in zip(meta, outs):
+        text = ""
+        if os.path.exists(tr):
+            text = squeeze_trace(open(tr).read())
+        try:
+            items, dims = parse_trace(text)
+        except (TraceError, ValueError, IndexError) as e:
+            items, dims = [], dict(threads=1, mutexes=1, conds=1)
+            if "trace-format" not in found:
+                found["trace-format"] = None
+                ctx.broken("correspondence:trace-format", "cannot parse the H4 trace of %s under %s: %s" % (p["expr"], sc[:80], e))
+        parsed.append((items, dims))
+    try:
+        answers = model_answers(ctx, exe, parsed)
+    except Exception as e:
+        ctx.broken("correspondence:model-driver", "the extracted model driver failed on the random-program traces: %s" % str(e)[-500:])
+        answers = [[None] * len(it) for it, _ in parsed]
+    for (p, sc, tr), o, (items, dims), ans in zip(meta, outs, parsed, answers):
+        ctx.count(1, key=(p["expr"], sc), nontrivial=True)
+        if o == "SKIPPED":
+            continue
+        rp = "printf '%s\\t1000\\t/dev/stderr\\t%s\\n' | %s   # result on stdout, H4 trace on stderr" % (sc, p["expr"].replace("'", "'\\''"), replay_base)
+        inp = dict(program=p["expr"], schedule=sc[:300], clock="1000", deadlock_free_by_construction=p["df"])
+
+        def hit(cls, **kw):
+            if cls not in found:
+                found[cls] = dict(input=inp, replay=rp, **kw)
+        # ---- outcome: schedule-independent clauses
+        if o is None or o == "TIMEOUT" or (o or "").startswith("CRASH"):
+            hit("random-program:" + ("hang" if o in (None, "TIMEOUT") else "crash"), expected="the program ends (all waits of the root are timed, virtual clock)", observed=str(o))
+            res = None
+        else:
+            try:
+                res = R.read_sexp(o)
+            except Exception:
+                res = None
+            if res is None or o.startswith("EXC"):
+                hit("random-program:exception", expected="a result list", observed=o[:300])
+                res = None
+            else:
+                for cls, msg in R.spec_outcome(p, res):
+                    hit("random-program:" + cls, expected="outcome allowed by SRFI-18 for every schedule", observed=msg, result=o[:600])
+        if not items:
+            continue
+        n_traces += 1
+        # ---- the property's clauses on the real scheduler's states
+        cut = len(items)
+        for k, a in enumerate(ans):
+            if a is not None and a.startswith("E0") and items[k][0].startswith("term"):
+                cut = k          # thread-terminate! of a timed waiter: outside the proved fragment (notes (b))
+                n_outside += 1
+                break
+        for k in range(1, cut):
+            pe = items[k - 1][1]
+            if (not items[k][0].startswith("sched") and not pe["F"] and set(pe["P"]) <= {pe["C"]}
+                    and pe["T"].get(pe["C"], ("0",))[0][0] == "1" and items[k][1]["C"] == pe["C"]):
+                cut = k          # the hook prints no line for a scheduler call that leaves a single runnable thread and empty
+                n_gap += 1       # lists (the only thread's own timeout ended): nothing to compare from here on
+                break
+        f = set()
+        for cls, msg, k in R.trace_oracle(items[:cut], f):
+            hit("sched-trace:" + cls, expected="C11 clause holds in every state of the real scheduler", observed=msg, trace_event=k, operation=items[k][0])
+        for k, (req, exp) in enumerate(items[:cut]):
+            w = check_state_invariant(exp)
+            if w:
+                hit("scheduler-state:" + re.sub(r"[^a-zA-Z ]", "", w).strip().replace(" ", "-")[:50], expected="queues_wellformed / waiting_is_paused hold in every state of the real scheduler",
+                    observed=w, trace_event=k, operation=req)
+                break
+        for x in f:
+            feats[x] = feats.get(x, 0) + 1
+        # ---- every traced state against the extracted model
+        mm = None
+        for k in range(cut):
+            if ans[k] is None:
+                break
+            n_lines += 1
+            why = compare_state(ans[k], items[k][1])
+            if why:
+                mm = dict(line=k, request=items[k][0], why=why, model=ans[k], impl=str(items[k][1])[:600])
+                break
+        if mm and diverge is None:
+            diverge = (mm, p, sc, rp)
+        # ---- outcomes predicted from the model's answers
+        if mm is None and res is not None and cut == len(items) and len(items) < 19000:
+            try:
+                logs, complete = R.predict(p, items, ans)
+                n_pred += 1
+                if complete and logs != res[1:] and outcome_diff is None:
+                    victims = set(o[1] for ops in p["specs"] for o in R.walk(ops) if o[0] == "k")
+                    bad = [(i, a, b) for i, (a, b) in enumerate(zip(logs, res[1:])) if a != b and not any(isinstance(x, list) and x[1] == "exc?" for x in a)
+                           and not (i in victims and (a[:len(b)] == b or b[:len(a)] == a))]
+                    if bad:
+                        outcome_diff = (bad[0], p, sc, rp)
+            except R.Mismatch as e:
+                if outcome_diff is None:
+                    outcome_diff = ((None, str(e), None), p, sc, rp)
+    ctx.cov["random_programs"] = dict(programs=nprog, runs=len(reqs), traces=n_traces, trace_lines_vs_model=n_lines, outcomes_predicted=n_pred,
+                                      cut_at_terminate_of_timed_waiter=n_outside, cut_at_untraced_scheduler_call=n_gap, deadlock_free=sum(1 for p in progs if p["df"]))
+    ctx.cov["random_situations_reached"] = dict(sorted(feats.items()))
+    ctx.cov["traces_validated_against_impl"] += n_traces
+    for cls, det in found.items():
+        if det is not None:
+            ctx.violation(cls, **det)
+    if diverge:
+        mm, p, sc, rp = diverge
+        msg = "model and threads.c disagree at event %s (%s): %s; program %s schedule %s" % (mm["line"], mm["request"], mm["why"], p["expr"], sc[:200])
+        if [c for c in found if found[c] is not None]:
+            ctx.note("random programs: " + msg)
+        else:
+            ctx.broken("correspondence:scheduler-trace", msg, model=mm["model"], impl=mm["impl"], replay=rp)
+    if outcome_diff:
+        (i, a, b), p, sc, rp = outcome_diff
+        msg = ("thread %s: outcomes predicted from the model %s, logged by the program %s" % (i, a, b)) if i is not None else a
+        if [c for c in found if found[c] is not None]:
+            ctx.note("random programs: outcome prediction: " + msg)
+        else:
+            ctx.broken("correspondence:wrapper-outcome", msg + "; program %s schedule %s" % (p["expr"], sc[:200]), replay=rp)
+    if progs:
+        ctx.sample(dict(kind="random", program=progs[0]["expr"][:400], schedule=meta[0][1], impl=(outs[0] or "")[:300]))
+    return n_lines
 
 
 # --------------------------------------------------------------------------- harness driving
@@ -393,7 +609,7 @@ def run(ctx):
             break
 
     # ---------------------------------------------------------------- outer: programs x schedules
-    progs = programs(ctx.thorough)
+    progs = programs(ctx.thorough) if not os.environ.get("C11_ONLY_RANDOM") else []     # (development switch)
     scheds = schedules(rng, ctx.thorough)
     reqs, meta = [], []
     for pi, (name, expr, expected, vclock) in enumerate(progs):
@@ -472,6 +688,13 @@ def run(ctx):
                 mm.get("line"), mm.get("request"), mm.get("why"), expr, sc[:200], clock), model=mm.get("model"), impl=str(mm.get("impl"))[:600])
         else:
             ctx.note("model/implementation trace divergence: event %s (%s): %s" % (mm.get("line"), mm.get("request"), mm.get("why")))
+    for f in os.listdir(tdir):
+        os.unlink(os.path.join(tdir, f))
+
+    # ---------------------------------------------------------------- round 2: random thread programs
+    n_lines += run_random(ctx, d, emb, exe, tdir, replay_base, nprog=(int(os.environ.get("C11_NPROG", "0")) or (300 if not ctx.thorough else 5000)),
+                          nsched=(3 if not ctx.thorough else 6))
+    ctx.cov["trace_lines_compared"] = n_lines
     ctx.sample(dict(kind="inner", traces=ctx.cov["traces_validated_against_impl"], lines=n_lines))
     for f in os.listdir(tdir):
         os.unlink(os.path.join(tdir, f))
